@@ -7,6 +7,7 @@ From Oras Require Import Base.Prelude Generated.GC04 Model.CopySpec Model.CopyTo
   Proofs.CopySpec Proofs.CopyAcct Proofs.CopyOpt Proofs.CopyAbort.
 From Oras Require Import Model.CopyHold Proofs.CopyHold Proofs.CopySrcOrder.
 From Oras Require Model.CopyCancel.
+From Oras Require Import Model.CopyPermit Proofs.CopyPermit.
 Local Open Scope nat_scope.
 From Oras Require Model.CopyImpl Proofs.CopyImplBase Properties.C02_protocol Proofs.CopyPermitsFinal.
 
@@ -486,3 +487,71 @@ Theorem C04_close_after_push :
     g_ismf g n = false -> c_mount c = false -> In (PuB n (root_refpush c n)) tr1.
 Proof. exact close_after_push. Qed.
 Print Assumptions C04_close_after_push.
+
+(* ---- second extension round: the real semaphore's free-permit readings are part of the recorded run
+   and are judged by the model (Model/CopyPermit.v), not only by the oracle ---- *)
+
+(* every reading f of an accepted run taken while the call runs: the permits that the overlay knows to
+   be held at that instant plus the free ones fit into K -- hence the operations in flight plus the
+   free permits do; a reading taken after the call returned (nil or an error) shows ALL K permits free
+   (a leaked permit is a rejected run; protocol-side: C04_all_permits_free_at_return) *)
+Theorem C04_permit_readings_bounded :
+  forall (cs : cbset) (g : graph) (c : cfg) (d0 : list node) (tr1 : list pev) (f : nat) (tr2 : list pev)
+         (st : state) (full : list event),
+    paccepts_opt cs g c d0 (tr1 ++ PFree f :: tr2) = Some (st, full) ->
+    exists st1 f1, paccepts_opt cs g c d0 tr1 = Some (st1, f1) /\
+      (returned st1 = None ->
+         holders g st1 + f <= c_K c /\ holders g st1 <= c_K c /\
+         inflight_src g st1 + f <= c_K c /\ inflight_dst g st1 + f <= c_K c) /\
+      (returned st1 <> None -> f = c_K c).
+Proof. exact readings_bounded. Qed.
+Print Assumptions C04_permit_readings_bounded.
+
+(* a run with readings is a run: dropping the readings leaves a trace the overlay accepts with the same
+   final state and elaboration, so every theorem above applies to it *)
+Theorem C04_permit_readings_run :
+  forall (cs : cbset) (g : graph) (c : cfg) (d0 : list node) (tr : list pev) (st : state) (full : list event),
+    paccepts_opt cs g c d0 tr = Some (st, full) ->
+    accepts_opt_h cs g c d0 (events_of tr) = Some (st, full).
+Proof. exact paccepts_opt_events. Qed.
+Print Assumptions C04_permit_readings_run.
+
+(* the protocol model says the same about the semaphore: in every reachable state the free permits and
+   the tasks standing at a counter where they must hold one fit into K *)
+Theorem C04_free_permits_cover_must_hold :
+  forall succ K ext roots s, CopyImplBase.Reachable succ K ext roots s ->
+    CopyImpl.free s + must_holders s <= K.
+Proof. exact free_permits_cover_must_hold. Qed.
+Print Assumptions C04_free_permits_cover_must_hold.
+
+(* transport: a reading travels as the token of dst.Tag; that token is free in CopyGraph runs -- no
+   trace of mode MGraph accepted by the transition system contains a TagB event -- what the runner
+   evaluates is the decoded run, and outside CopyGraph nothing is decoded *)
+Theorem C04_no_tag_in_copygraph :
+  forall (cs : cbset) (g : graph) (c : cfg) (d0 : list node) (tr : list event) (st : state)
+         (full : list event) (n : node),
+    accepts_opt cs g c d0 tr = Some (st, full) -> c_mode c = MGraph -> ~ In (TagB n) tr.
+Proof. exact no_tag_in_copygraph_opt. Qed.
+Print Assumptions C04_no_tag_in_copygraph.
+
+Theorem C04_runner_decodes_readings :
+  forall (cs : cbset) (g : graph) (c : cfg) (tr : list event) (st : state),
+    run_opt_p cs g c st tr = prun_opt cs g c st (map (decode c) tr).
+Proof. exact run_opt_p_prun_opt. Qed.
+Print Assumptions C04_runner_decodes_readings.
+
+Theorem C04_runner_other_modes_unchanged :
+  forall (cs : cbset) (g : graph) (c : cfg) (s : CopyCancel.cstate) (ce : CopyCancel.cevent),
+    c_mode c <> MGraph -> cstep_opt_p cs g c s ce = cstep_opt_h cs g c s ce.
+Proof. exact cstep_opt_p_other_modes. Qed.
+Print Assumptions C04_runner_other_modes_unchanged.
+
+(* satisfiable and sharp: K = 2, both blobs of a manifest in their copy -- a reading of 0 free permits
+   is accepted, a reading of 1 is rejected although the events alone are a run of the overlay; the complete
+   run with 2 free permits after the return is accepted, with 1 (a leaked permit) rejected *)
+Example C04_permit_readings_example :
+  (exists r, paccepts_opt all_set g_leaf c_perm [] ptr_ok = Some r) /\
+  paccepts_opt all_set g_leaf c_perm [] ptr_bad = None /\
+  (exists r, accepts_opt_h all_set g_leaf c_perm [] (events_of ptr_bad) = Some r) /\
+  paccepts_opt all_set g_leaf c_perm [] ptr_leak = None.
+Proof. exact readings_example. Qed.
